@@ -15,10 +15,14 @@
 EXTENDS Naturals, Sequences, FiniteSets, SequencesExt, Functions, TLC
 
 Outcomes == {"success", "error", "always"}
+
+(* a program of family "legacy" does not enable the `replies` feature: it has one reply method taking the whole *)
+(* reply, no handler names, no ids, no builders; every reply -- whatever its id and outcome -- is handed to it   *)
+Legacy(p) == p.family = "legacy"
 SeqSet(s) == {s[i] : i \in 1..Len(s)}
 
 HandlerIds(m) == IF Len(m.handlers) = 0 THEN <<m.name>> ELSE m.handlers
-AllHandlers(p) == UNION {SeqSet(HandlerIds(p.methods[i])) : i \in 1..Len(p.methods)}
+AllHandlers(p) == IF Legacy(p) THEN {} ELSE UNION {SeqSet(HandlerIds(p.methods[i])) : i \in 1..Len(p.methods)}
 MethodsFor(p, h) == {i \in 1..Len(p.methods) : h \in SeqSet(HandlerIds(p.methods[i]))}
 MethodsOn(p, h, on) == {i \in MethodsFor(p, h) : p.methods[i].on = on}
 
